@@ -167,6 +167,41 @@ def _worker(items, base):
     return out
 
 
+def shared_subroutine_driver(rep):
+    """ONE subroutine object used by two programs (an approval and a clear-state program sharing a helper): in
+    program A the variable it reads is written by the main routine first (it is then shared between two
+    routines: accepted); in program B nothing writes it (it is used by the helper alone and read before any
+    write: must be rejected) - in both compilation orders, and after A was compiled several times."""
+    for version in (6, 8, 10):
+        for order in ("B", "AB", "AAB", "BAB"):
+            x = pt.ScratchVar(pt.TealType.uint64)
+
+            @pt.Subroutine(pt.TealType.uint64)
+            def helper():
+                return x.load() + pt.Int(1)
+            prog_a = lambda: pt.Seq(x.store(pt.Int(5)), pt.Pop(helper()), pt.Int(1))
+            prog_b = lambda: pt.Seq(pt.Pop(helper()), pt.Int(1))
+            last = None
+            for step in order:
+                try:
+                    pt.compileTeal(prog_a() if step == "A" else prog_b(), pt.Mode.Application, version=version)
+                    last = "ok"
+                except drive.PT_ERRORS as e:
+                    last = "pterr"
+                except Exception as e:
+                    last = "crash: %r" % (e,)
+                if step == "A" and last != "ok":
+                    rep.violations.append({"driver": "shared-sub", "size": 2, "title": "v%d order %s: program A (variable written by main) was %s" % (version, order, last),
+                                           "order": order, "version": version, "features": {"why": "shared-sub A rejected", "status": last}})
+            rep.add("traces_validated")
+            rep.outcomes["shared-sub:" + str(last)] = rep.outcomes.get("shared-sub:" + str(last), 0) + 1
+            if last != "pterr":
+                rep.violations.append({
+                    "driver": "shared-sub", "size": 2,
+                    "title": "v%d order %s: program B reads a helper-only variable that nothing writes, yet compiling it gave %s" % (version, order, last),
+                    "order": order, "version": version, "features": {"why": "shared-sub B accepted", "status": str(last)}})
+
+
 def run(tier):
     global _CFGS
     rep = common.Report(PID, tier)
@@ -207,6 +242,7 @@ def run(tier):
     rep.bounds["configs"] = [repr(c) for c in _CFGS]
     for sh in common.pmap_shards(_worker, items, order_seed=rep.seed):
         rep.merge(sh)
+    shared_subroutine_driver(rep)
     rep.counters["distinct_nontrivial"] = rep.counters.get("states", 0)
     rep.assumptions = ["paths are syntactic: both outcomes of every condition, zero or more loop iterations",
                        "code after Return/Break/Continue in the same sequence is unreachable"]
@@ -216,6 +252,13 @@ def run(tier):
 
 
 def replay(case):
+    if case.get("driver") == "shared-sub":
+        rep = common.Report(PID, "quick")
+        shared_subroutine_driver(rep)
+        hits = [v for v in rep.violations if v["order"] == case["order"] and v["version"] == case["version"]]
+        for v in hits:
+            print("still violates:", v["title"])
+        return bool(hits)
     out = {"counters": {}, "outcomes": {}, "violations": [], "samples": []}
     body = _tuplify(case["body"])
     check(case["recipe"], body, rb.Cfg.from_json(case["cfg"]), out, 0, case["placement"], case["varkind"])
